@@ -24,6 +24,9 @@ Transcribed source (pinned tree):
       return self._pending_tasks
 * pyatv/core/facade.py:677-685 `_shield_everything`, `_block_everything`  → `init`, `blockFrom`
 * pyatv/support/shield.py:44-75 `shield`, `block`, `is_blocking`, `guard` → `Shield`, `blockFrom`, `isBlocking`, `apiBlocked`
+      (every shielded object carries its OWN `__shield_is_blocking` attribute: an interface object the
+       user obtained earlier answers from that flag alone, also after the device object is gone →
+       `Ev.dropDevice`, `St.deviceHeld`)
 * pyatv/core/facade.py:578-593 `FacadePushUpdater.start/stop`             → `pushStart`, `pushStop`
 * how protocols report (`core.device_listener.listener.connection_lost(exc)` /
   `.connection_closed()`): protocols/mrp/connection.py:74-84, companion/connection.py:160-168,
@@ -110,6 +113,7 @@ inductive Out
   | pass                          -- the guard let the call through
   | badMember
   | delivered (b : Bool)          -- did the user's PushListener receive the update
+  | gone                          -- the user no longer holds the object this member lives on
   deriving DecidableEq, Repr
 
 structure St where
@@ -125,13 +129,16 @@ structure St where
   inner : List (Bool × InEv × Out)  -- calls made from inside callbacks (flag: DeviceListener callback) and what they saw
   raised : Bool               -- an error of the library's own escaped from `close()` (or the model ran out of fuel)
   flying : Bool               -- an exception raised by user code is propagating
+  deviceHeld : Bool           -- the user still holds the device object (object 0) itself; the interface
+                              -- objects obtained from it earlier stay in the user's hands regardless
   deriving Repr
 
 /-- after `__init__` (`_shield_everything`) and `connect()` -/
 def init (cfg : Cfg) : St :=
   { callsMade := 0, pending := none, tasks := 0, nextId := 0, closeLog := [],
     shield := List.replicate cfg.nObjs (some false), pushOn := false,
-    notified := [], reports := [], inner := [], raised := false, flying := false }
+    notified := [], reports := [], inner := [], raised := false, flying := false,
+    deviceHeld := true }
 
 /-- `shield.is_blocking(obj)` -/
 def isBlocking (s : St) (o : Nat) : Bool := s.shield[o]? == some (some true)
@@ -237,6 +244,9 @@ inductive Ev
   | pushStart                     -- push_updater.start() on the held FacadePushUpdater
   | pushStop                      -- push_updater.stop()
   | push (i : Nat) (b : Beh)      -- protocol i's push updater posts an update; b = the PushListener handler
+  | dropDevice                    -- the user drops every reference to the device object (`self.atv = None`,
+                                  -- the object may be garbage-collected) and keeps only the interface objects
+                                  -- (`rc = atv.remote_control`, …) it obtained before
   deriving DecidableEq, Repr
 
 def step (cfg : Cfg) (s : St) : Ev → St × Out
@@ -246,7 +256,13 @@ def step (cfg : Cfg) (s : St) : Ev → St × Out
   | .userClose =>
     let s' := closeF cfg topFuel s
     if s'.flying then ({ s' with flying := false }, .userRaised) else (s', closeOut s')
-  | .api m => (s, apiOut cfg s m)
+  | .api m =>
+    -- members of the device object itself cannot be called once it was dropped; members of the
+    -- interface objects answer from their own shield flag, whether or not the device object lives
+    match cfg.members[m]? with
+    | some row => if !s.deviceHeld && row.obj == 0 then (s, .gone) else (s, apiOut cfg s m)
+    | none => (s, .badMember)
+  | .dropDevice => ({ s with deviceHeld := false }, .none)
   | .pushStart =>
     if isBlocking s cfg.pushObj then (s, .blocked) else ({ s with pushOn := true }, .pass)
   | .pushStop =>
